@@ -41,7 +41,10 @@ import (
 	"strconv"
 	"strings"
 	"sync"
+	"sync/atomic"
 	"time"
+
+	"gircverif/drive"
 
 	"github.com/lrstanley/girc"
 )
@@ -886,6 +889,17 @@ func c16RunWire(c Case) Result {
 				obs[i], orc[i] = c16RunFlood(nums[0])
 				sigs[i] = "F"
 			}(i)
+		case "I":
+			if len(nums) != 2 {
+				obs[i] = "?scenario"
+				continue
+			}
+			wg.Add(1)
+			go func(i int) {
+				defer wg.Done()
+				obs[i], orc[i] = c16RunInboundWire(nums[0], nums[1])
+				sigs[i] = "I"
+			}(i)
 		case "X":
 			if len(nums) != 7 {
 				obs[i] = "?scenario"
@@ -989,6 +1003,7 @@ func c16GenWire(r *rand.Rand) Case {
 	textlen := (linelen - 96 - 13) * (24 + r.Intn(6)) / 10
 	c := Case{c16Join("S", sl), c16Join("P", []int{200 + r.Intn(100), 200 + r.Intn(100)}), c16Join("T", append([]int{1}, t1...)),
 		c16Join("T", append([]int{3}, t3...)), "F 50", c16Join("X", append(append([]int{linelen}, xl...), textlen))}
+	c = append(c, c16Join("I", []int{1 + r.Intn(4), 3}))
 	for _, v := range [][2]string{{"0", "0"}, {"1", "0"}, {"0", "1"}, {"1", "1"}} {
 		names := c16AllHelperNames()
 		r.Shuffle(len(names), func(i, j int) { names[i], names[j] = names[j], names[i] })
@@ -1553,5 +1568,298 @@ func init() {
 			}
 			return Result{Obs: route, Oracle: oracle, Sig: route}
 		},
+	})
+}
+
+// ---------------------------------------------------------------- rate.inbound
+
+// The limiter state (writeDelay, lastWrite, lastRate) has two documented writers: rate(),
+// called from Send, and sendLoop stamping lastWrite.  No handler of inbound traffic is one.
+// A connected client's limiter is primed (VerifSetWriteDelay) and a history of inbound
+// events — keep-alives, numerics, CAP/SASL, and the hostile generator of state.hostile —
+// is fed through the handlers one event at a time; after every event the state is read back
+// (VerifLimiterState):
+//   AllowFlood on  (Send never rates): writeDelay and lastRate are exactly what they were;
+//   AllowFlood off (handlers that Send — JOIN, nick collision — do rate): lastRate only moves
+//     forward, writeDelay is unchanged if lastRate is, and never drops by more than the time
+//     that passed;
+//   lastWrite only moves forward, never beyond the clock.
+// case: allowFlood, primed writeDelay (ns), then an encoded history.
+
+func c16InboundEvent(r *rand.Rand) Ev {
+	srv := func(cmd string, params ...string) Ev {
+		return Ev{HasSrc: true, Name: "irc.test", Cmd: cmd, Params: params}
+	}
+	switch r.Intn(20) {
+	case 0, 1, 2:
+		return srv("PONG", "irc.test", Pick(r, "12345", "x", "", strconv.FormatInt(r.Int63(), 10)))
+	case 3:
+		return Ev{Cmd: "PONG", Params: []string{Pick(r, "tok", "")}}
+	case 4:
+		return Ev{Cmd: "PONG"}
+	case 5, 6:
+		return srv("PING", Pick(r, "irc.test", "abc def", ""))
+	case 7:
+		return srv("001", "me", "Welcome")
+	case 8:
+		return srv("005", "me", Pick(r, "NICKLEN=9", "LINELEN=400", "CHANMODES=b,k,l,imnpst"), Pick(r, "PREFIX=(ov)@+", "NETWORK=T"), "are supported by this server")
+	case 9:
+		return srv("CAP", Pick(r, "*", "me"), Pick(r, "LS", "ACK", "NAK", "NEW", "DEL", "LIST"), Pick(r, "multi-prefix sasl", "account-tag", "sts=port=6697", "*", ""))
+	case 10:
+		return Ev{Cmd: "AUTHENTICATE", Params: []string{Pick(r, "+", "abc", "")}}
+	case 11:
+		return srv(Pick(r, "900", "903", "904", "905", "906", "908"), "me", "text")
+	case 12:
+		return srv(Pick(r, "433", "436", "437"), "*", Pick(r, "me", "other"), "Nickname is already in use")
+	case 13:
+		return Ev{HasSrc: true, Name: "me", Ident: "user", Host: "h", Cmd: "JOIN", Params: []string{Pick(r, "#chan", "#other")}}
+	case 14:
+		return Ev{HasSrc: true, Name: "alice", Ident: "a", Host: "h", Cmd: "PRIVMSG", Params: []string{"me", Pick(r, "\x01VERSION\x01", "\x01PING 1\x01", "\x01TIME\x01", "hello")}}
+	default:
+		return hostileEvent(r)
+	}
+}
+
+func c16SendsFromHandler(e Ev) bool { // handlers that answer through Send (rated when flood protection is on)
+	switch e.Cmd {
+	case "JOIN", "433", "436", "437":
+		return true
+	}
+	return false
+}
+
+func c16GenInbound(r *rand.Rand) Case {
+	af := r.Intn(3) != 0
+	var wd int64
+	if af {
+		wd = []int64{0, 1, 5 * c16Second, c16Threshold, c16Threshold + 1, 20 * c16Second, 3600 * c16Second}[r.Intn(7)]
+	} else {
+		wd = []int64{1 * c16Second, 2 * c16Second, 2*c16Second + 1}[r.Intn(3)] // handler Sends stay below 8 s: none is held
+	}
+	n := 4 + r.Intn(20)
+	var evs []Ev
+	sends := 0
+	for len(evs) < n {
+		e := c16InboundEvent(r)
+		if !af && c16SendsFromHandler(e) {
+			if sends >= 2 {
+				continue
+			}
+			sends++
+		}
+		evs = append(evs, e)
+	}
+	mode := "0"
+	if af {
+		mode = "1"
+	}
+	return append(Case{mode, strconv.FormatInt(wd, 10)}, EncodeHistory("feed", "me", "user", evs)...)
+}
+
+func c16RunInbound(c Case) Result {
+	if len(c) < 5 {
+		return Result{Obs: "?bad-args"}
+	}
+	af := c[0] == "1"
+	wd, err := strconv.ParseInt(c[1], 10, 64)
+	_, nick, user, evs, ok := DecodeHistory(c[2:])
+	if err != nil || !ok {
+		return Result{Obs: "?bad-args"}
+	}
+	cfg := drive.BaseConfig()
+	cfg.Nick, cfg.User, cfg.AllowFlood = nick, user, af
+	ss := &StateSession{}
+	ss.Session = drive.Start(cfg)
+	ss.C.Handlers.Add(girc.UPDATE_GENERAL, func(c *girc.Client, e girc.Event) { atomic.AddInt64(&ss.general, 1) })
+	defer ss.Stop()
+	ss.Settle(5*time.Millisecond, time.Second)
+	if !ss.C.VerifSetWriteDelay(time.Duration(wd)) {
+		return Result{Obs: "?disconnected"}
+	}
+	wdObs, lrObs, lwObs, oracle := "same", "same", "mono", ""
+	if !af {
+		wdObs, lrObs = "kept", "mono"
+	}
+	seen := map[string]bool{}
+	check := func(what string, w0 time.Duration, lw0, lr0 time.Time, t0 time.Time) (time.Duration, time.Time, time.Time) {
+		w1, lw1, lr1, ok := ss.C.VerifLimiterState()
+		if !ok {
+			return w0, lw0, lr0
+		}
+		elapsed := time.Since(t0)
+		fail := func(slot *string, v, msg string) {
+			*slot = v
+			if oracle == "" {
+				oracle = "limiter-state-touched: " + what + " " + msg
+			}
+		}
+		switch {
+		case af && w1 != w0:
+			fail(&wdObs, "CHANGED", fmt.Sprintf("changed writeDelay from %v to %v (AllowFlood: nothing rates)", w0, w1))
+		case !af && lr1.Equal(lr0) && w1 != w0:
+			fail(&wdObs, "CHANGED", fmt.Sprintf("changed writeDelay from %v to %v without a rate call", w0, w1))
+		case !af && w1 < w0-elapsed:
+			fail(&wdObs, "LOWERED", fmt.Sprintf("lowered writeDelay from %v to %v in %v", w0, w1, elapsed))
+		}
+		switch {
+		case af && !lr1.Equal(lr0):
+			fail(&lrObs, "CHANGED", "moved lastRate (AllowFlood: nothing rates)")
+		case lr1.Before(lr0) || lr1.After(time.Now()):
+			fail(&lrObs, "BACK", "moved lastRate backwards or beyond the clock")
+		}
+		if lw1.Before(lw0) || lw1.After(time.Now()) {
+			fail(&lwObs, "BACK", "moved lastWrite backwards or beyond the clock")
+		}
+		return w1, lw1, lr1
+	}
+	w, lw, lr, _ := ss.C.VerifLimiterState()
+	for i, e := range evs {
+		seen[e.Cmd] = true
+		t0 := time.Now()
+		returned := make(chan struct{})
+		go func(e Ev) { ss.Apply(e); close(returned) }(e)
+		select {
+		case <-returned:
+		case <-time.After(20 * time.Second):
+			return Result{Obs: "WEDGED", Oracle: fmt.Sprintf("liveness: the handlers of inbound event %d (%s) did not return", i, e.Cmd), Sig: "wedged"}
+		}
+		w, lw, lr = check(fmt.Sprintf("the handlers of inbound event %d (%s %q)", i, e.Cmd, e.Params), w, lw, lr, t0)
+	}
+	// background handlers (CTCP repliers, welcome) and sendLoop settle
+	t0 := time.Now()
+	ss.Settle(10*time.Millisecond, 2*time.Second)
+	check("a background handler after the history", w, lw, lr, t0)
+	if ss.PanicCount() > 0 && oracle == "" {
+		oracle = "panic: a handler panicked"
+	}
+	sig := "flood-on"
+	if af {
+		sig = "allowflood"
+	}
+	if seen["PONG"] {
+		sig += "/pong"
+	}
+	if seen["PING"] {
+		sig += "/ping"
+	}
+	if seen["JOIN"] || seen["433"] || seen["436"] || seen["437"] {
+		sig += "/handler-send"
+	}
+	return Result{Obs: "wd=" + wdObs + " lr=" + lrObs + " lw=" + lwObs, Oracle: oracle, Sig: sig}
+}
+
+// ---- I: unsolicited keep-alives from the server do not give the allowance back
+
+func c16RunInboundWire(npong, nsend int) (obs, oracle string) {
+	s := c16Start(false)
+	defer s.stop()
+	if !s.c.VerifSetWriteDelay(20 * time.Second) {
+		return "I=?disconnected", ""
+	}
+	t0 := time.Now()
+	for i := 0; i < npong; i++ {
+		s.peer.Write([]byte(fmt.Sprintf(":irc.test PONG irc.test :unsolicited%d\r\n", i)))
+		if i%2 == 1 {
+			s.peer.Write([]byte(fmt.Sprintf("PING :between%d\r\n", i)))
+		}
+	}
+	// lines are handled in order: once this PING is answered the PONGs before it have been
+	s.peer.Write([]byte("PING :sync-i\r\n"))
+	if !s.wait(func(a []c16Arrival) bool { return c16Count(a, "PONG sync-i") >= 1 }, 10*time.Second) {
+		return "I=?nosync", "keepalive-lost: PING after the unsolicited PONGs was not answered"
+	}
+	time.Sleep(20 * time.Millisecond) // background handlers of the same lines
+	if wd, ok := s.rateStateNB(); ok && wd < 20*time.Second-time.Since(t0) && oracle == "" {
+		oracle = fmt.Sprintf("limiter-state-touched: %d unsolicited PONGs from the server lowered the accumulated delay from 20s to %v in %v", npong, wd, time.Since(t0).Round(time.Millisecond))
+	}
+	type sent struct {
+		tok   string
+		at    time.Time
+		rated bool
+		done  chan struct{}
+	}
+	var batch []*sent
+	for j := 0; j < nsend; j++ {
+		st := &sent{tok: fmt.Sprintf("zi%02dx", j), done: make(chan struct{})}
+		wd0, _ := s.rateStateNB()
+		st.at = time.Now()
+		go func() {
+			defer close(st.done)
+			s.c.Cmd.Message("#i0", st.tok)
+		}()
+		for k := 0; k < 5000; k++ {
+			if wd, ok := s.rateStateNB(); !ok || wd > wd0 {
+				st.rated = true
+				break
+			}
+			if c16Count(s.snapshot(), "PRIVMSG #i0 "+st.tok) > 0 {
+				break
+			}
+			time.Sleep(time.Millisecond)
+		}
+		batch = append(batch, st)
+	}
+	s.c.Cmd.Ping("mk-i")
+	s.wait(func(a []c16Arrival) bool { return c16Count(a, "PING mk-i") >= 1 }, 10*time.Second)
+	res := make([]byte, 0, nsend)
+	for _, st := range batch {
+		select {
+		case <-st.done:
+		case <-time.After(20 * time.Second):
+		}
+		prefix := "PRIVMSG #i0 " + st.tok
+		s.wait(func(a []c16Arrival) bool { return c16Count(a, prefix) >= 1 }, 10*time.Second)
+		mki, li := -1, -1
+		var lat time.Time
+		for i, a := range s.snapshot() {
+			if strings.HasPrefix(a.line, "PING mk-i") {
+				mki = i
+			}
+			if li < 0 && strings.HasPrefix(a.line, prefix) {
+				li, lat = i, a.at
+			}
+		}
+		cost := time.Duration(c16Cost(int64(len(prefix))))
+		switch {
+		case li < 0:
+			res = append(res, '!')
+			if oracle == "" {
+				oracle = "line-lost: a PRIVMSG sent after the unsolicited PONGs never reached the peer"
+			}
+		case st.rated && li > mki && lat.Sub(st.at) >= cost:
+			res = append(res, 'H')
+		default:
+			res = append(res, 'U')
+			if oracle == "" {
+				oracle = fmt.Sprintf("not-held: after %d unsolicited PONGs from the server, %q sent with 20s of accumulated delay reached the peer %.3fs after the call (cost %.2fs), %s",
+					npong, prefix, lat.Sub(st.at).Seconds(), cost.Seconds(), map[bool]string{true: "after", false: "BEFORE"}[li > mki]+" the marker")
+			}
+		}
+	}
+	return "I=" + string(res), oracle
+}
+
+func init() {
+	Register(&Suite{
+		Name: "rate.inbound",
+		Prop: []string{"C16"},
+		Fixed: func() []Case {
+			pong := Ev{HasSrc: true, Name: "irc.test", Cmd: "PONG", Params: []string{"irc.test", "12345"}}
+			ping := Ev{HasSrc: true, Name: "irc.test", Cmd: "PING", Params: []string{"irc.test"}}
+			join := Ev{HasSrc: true, Name: "me", Ident: "user", Host: "h", Cmd: "JOIN", Params: []string{"#chan"}}
+			var out []Case
+			for _, m := range []string{"0", "1"} {
+				for _, wd := range []string{"2000000000", "9000000000"} {
+					if m == "0" && wd != "2000000000" {
+						continue
+					}
+					out = append(out, append(Case{m, wd}, EncodeHistory("feed", "me", "user", []Ev{pong})...),
+						append(Case{m, wd}, EncodeHistory("feed", "me", "user", []Ev{ping, pong, join, pong})...))
+				}
+			}
+			return out
+		},
+		Gen: c16GenInbound,
+		Run: c16RunInbound,
 	})
 }
